@@ -15,6 +15,7 @@ Supported C++ subset (everything else is a hard error, never silently skipped):
                the member/index forms listed in each function's substitution table.
 """
 import os, re, sys
+sys.path.insert(0, os.path.dirname(os.path.abspath(__file__)))
 
 FUNS = {'sin': 'Scalar.sin', 'cos': 'Scalar.cos', 'tan': 'Scalar.tan', 'sqrt': 'Scalar.sqrt', 'atan2': 'Scalar.atan2'}
 
@@ -336,12 +337,25 @@ def main():
         sys.exit(1)
     L.append("end CoefSrc")
     txt = '\n'.join(L) + '\n'
+    write_if_changed(outp, txt)
+    # whole implementation functions (tools/gen_impl.py) -> SmoothModel/Gen/ImplSrc.lean
+    import gen_impl
+    outi = sys.argv[3] if len(sys.argv) > 3 else os.path.join(os.path.dirname(os.path.abspath(outp)), 'ImplSrc.lean')
+    try:
+        txti = gen_impl.generate(repo)
+    except gen_impl.TrErr as e:
+        print('gen_src: cannot translate the current source (implementation functions):', e)
+        sys.exit(1)
+    write_if_changed(outi, txti)
+
+
+def write_if_changed(outp, txt):
     old = open(outp).read() if os.path.exists(outp) else None
     if old != txt:
         open(outp, 'w').write(txt)
         print('gen_src: wrote', outp)
     else:
-        print('gen_src: unchanged')
+        print('gen_src: unchanged', os.path.basename(outp))
 
 
 if __name__ == '__main__':
